@@ -367,6 +367,9 @@ func C14(p *core.Program, r *core.Report) {
 	// ---- P10, P11
 	checkOGMetaLoop(p, r)
 
+	// ---- P12
+	checkSchemaTypeSchemes(p, r, "P12")
+
 	// ---- P9: what the three markup parsers read is the page as the caller gave it: nothing below
 	// Apply rewrites the caller's document (the converter works on a clone) - effect analysis,
 	// shared with C10-M1. A conversion pass that consumed the tree itself (font -> span, detached
@@ -724,4 +727,54 @@ func checkOGMetaLoop(p *core.Program, r *core.Report) {
 	}
 	r.Add("P11", "a property is stored under a table name only if its name is that name as a whole (prefix matching only for names ending in \":\")", p.Pos(fn.Pos()),
 		bad == 0 && nEq >= 1, fmt.Sprintf("%d prefix tests of the property name against a table name, %d of them reachable for names that do not end in \":\"; %d whole-name comparisons", len(prefixTests), bad, nEq))
+}
+
+// checkSchemaTypeSchemes (C14-P12): schema.org microdata is a source of MarkupInfo whatever
+// scheme the page spells the vocabulary with - `itemtype="https://schema.org/Article"` names the
+// same type as the http spelling. Wherever an itemtype attribute is looked up in the table of
+// supported types, either the table knows both spellings of every type, or the key that is looked
+// up is the attribute with a leading "https://" mapped to "http://" (the spelling of the table).
+func checkSchemaTypeSchemes(p *core.Program, r *core.Report, rule string) {
+	c := core.NewCanon(p)
+	n := 0
+	for _, fn := range p.ModFunctions(false) {
+		if core.FnPkgPath(fn) != core.ExpandKey("mod/internal/markup/schemaorg") {
+			continue
+		}
+		for _, in := range instrsOf(fn) {
+			lk, ok := in.(*ssa.Lookup)
+			if !ok {
+				continue
+			}
+			tbl := c.Of(lk.X)
+			if !strings.HasPrefix(tbl, "map‹") || !strings.Contains(tbl, "schema.org/") {
+				continue
+			}
+			idx := c.Of(lk.Index)
+			if !strings.Contains(idx, `"itemtype"`) {
+				continue
+			}
+			n++
+			keys := tableKeys(tbl)
+			have := map[string]bool{}
+			for _, k := range keys {
+				have[k] = true
+			}
+			both := true
+			for _, k := range keys {
+				if strings.HasPrefix(k, "http://") && !have["https://"+strings.TrimPrefix(k, "http://")] {
+					both = false
+				}
+				if strings.HasPrefix(k, "https://") && !have["http://"+strings.TrimPrefix(k, "https://")] {
+					both = false
+				}
+			}
+			attr := `dom.GetAttribute($1,"itemtype")`
+			normalised := idx == `μ(("http://" + strings.TrimPrefix(`+attr+`,"https://"))|`+attr+`)` || idx == `μ(`+attr+`|("http://" + strings.TrimPrefix(`+attr+`,"https://")))` ||
+				strings.Contains(idx, `"https://"`) && strings.Contains(idx, `"http://"`)
+			r.Add(rule, core.ShortKey(fn)+": a type is recognised under the http and the https spelling of its URL", p.Pos(lk.Pos()), both || normalised,
+				fmt.Sprintf("table of %d type URLs knows both spellings: %v; looked-up key: %s", len(keys), both, shortVal(idx)))
+		}
+	}
+	r.Add(rule, "lookups of itemtype in the table of supported types examined", "", n >= 1, fmt.Sprintf("%d", n))
 }
